@@ -221,6 +221,9 @@ def ocaml_engine(name, driver=None):
     mod = name + "_model"
     with open(os.path.join(d, "driver_%s.ml" % name), "w") as f:
         f.write("open %s\n" % (mod[0].upper() + mod[1:]))
+        mli = open(os.path.join(d, mod + ".mli")).read()
+        if re.search(r"^type z =", mli, flags=re.M):
+            f.write(open(os.path.join(VERIF, "extract", "common_z.ml")).read())
         f.write(open(os.path.join(VERIF, "extract", "common.ml")).read())
         f.write(open(drv).read())
     cmd = "ocamlfind ocamlopt -package str -linkpkg -O3 -w -a %s.mli %s.ml driver_%s.ml -o %s" % (mod, mod, name, exe)
